@@ -113,29 +113,33 @@ type Node struct {
 
 // World is one simulated run.
 type World struct {
-	Sc                 *Scenario
-	S                  *rt.Sched
-	KV                 *simkv.World
-	Nodes              []*Node
-	Recs               []*Rec
-	Watchers           []*Watcher
-	ComSamples         []uint64 // committed revision of node 0 after every step (index = step)
-	SampleCommitted    bool
-	done               int
-	started            bool
-	proDone            bool
-	Stuck              bool
-	StuckWhy           string
-	lastProgress       time.Duration
-	tmpDir             string
-	closers            []func()
-	engineDirs         []string
-	clients            []*clientState
-	OnStep             func(step uint64)
-	progressMark       int
-	doneRecs           int
-	probe              *clientState
-	Panics             []string
+	Sc              *Scenario
+	S               *rt.Sched
+	KV              *simkv.World
+	Nodes           []*Node
+	Recs            []*Rec
+	Watchers        []*Watcher
+	ComSamples      []uint64 // committed revision of node 0 after every step (index = step)
+	SampleCommitted bool
+	done            int
+	started         bool
+	proDone         bool
+	Stuck           bool
+	StuckWhy        string
+	lastProgress    time.Duration
+	tmpDir          string
+	closers         []func()
+	engineDirs      []string
+	clients         []*clientState
+	OnStep          func(step uint64)
+	progressMark    int
+	doneRecs        int
+	probe           *clientState
+	Panics          []string
+	// a fault below the TiKV adapter (Extra["tikv_scan_fault"]): armed by the property once its preload is done
+	TiKVScanFaultArmed bool
+	TiKVScanFaultFired int
+	TiKVGetFaultFired  int
 	Fatals             []string // klog.Fatal calls of node code (the node crashed there)
 	OnFatal            func(node int, msg string)
 	FineClock          bool // never let the clock hop far while tasks may become eligible (electors)
@@ -230,6 +234,9 @@ func New(sc *Scenario) (*World, error) {
 		return nil, err
 	}
 	w.KV = simkv.NewWorld(s, inner, lazy)
+	if sc.Extra["tikv_get_fault"] > 0 || sc.Extra["tikv_scan_fault"] > 0 {
+		w.TiKVScanFaultArmed = true
+	}
 	for _, f := range sc.Plan {
 		g := simkv.Fault{Op: f.Op, Class: f.Class, Who: f.Who, Node: f.Node, Nth: f.Nth, Effect: f.Effect}
 		w.KV.Plan = append(w.KV.Plan, &g)
@@ -560,7 +567,7 @@ func (w *World) Teardown() {
 	// let cancellation propagate (hub.delete tasks)
 	w.S.Quiesce(2000)
 	kill := map[string]bool{"seq.idle": true, "hub.recv": true, "retry.tick": true, "hub.delete": true,
-		"seq.commit": true, "seq.cache": true, "seq.bcast": true, "seq.sent": true, "consume": true, "client.wait": true}
+		"seq.commit": true, "seq.committed": true, "seq.cache": true, "seq.bcast": true, "seq.sent": true, "consume": true, "client.wait": true}
 	w.S.KillParked(kill)
 	UninstallHooks()
 	for _, c := range w.closers {
